@@ -37,6 +37,15 @@ def run(repo: Repo, rep: Report, tier: str) -> None:
     fq = "acse.ACSE._negotiate_as_acceptor"
     cfg = CFG(fn, body=body_nodoc(fn), local_exc_only=True)
     tests = [n for n in cfg.nodes if n.kind == "test" and "maximum_associations" in norm(n.ast.test)]
+    if not tests:
+        # the limit is compared somewhere else: the only place where "this association is one of the counted ones" holds
+        # is the association's own thread (its negotiation) - a count taken in the request handler, before start(), does
+        # not see the other requests being handled at the same moment
+        from .c27 import pkg_modules
+        for short_, m_ in pkg_modules(repo):
+            for x_ in ast.walk(m_.tree):
+                if isinstance(x_, ast.Compare) and "maximum_associations" in norm(x_) and not qualname(x_).endswith(("maximum_associations", "maximum_associations:setter")):
+                    rep.fail("inside-counted-thread", f"{short_}.{qualname(x_)}", enclosing(x_, (ast.stmt,)) or x_, f"the association limit is tested in {short_}.{qualname(x_)} instead of in the acceptor's negotiation: outside the association's own thread the request being handled is not among the live association threads yet, so requests handled concurrently do not count each other and all of them are accepted - more than maximum_associations acceptor associations are established", mod=m_, node=x_)
     rep.need(len(tests) == 1, f"{fq}: maximum_associations test vanished")
     t = tests[0]
     # ---- comparison ----------------------------------------------------------------
